@@ -413,6 +413,23 @@ func drawGraph(t *rapid.T) gCase {
 	for i := 0; i < ne; i++ {
 		c.Errors = append(c.Errors, gErr{Node: rapid.IntRange(0, n-1).Draw(t, "en"), Req: rapid.SampledFrom([]string{"x", "y"}).Draw(t, "er"), Err: rapid.SampledFrom([]string{"boom", "bang"}).Draw(t, "ee")})
 	}
+	// a quarter of the graphs: several pairs of parallel edges that agree in
+	// everything but the dependency type, as back edges and self loops (the only
+	// places duplicates leave them), on top of a duplicated node so that the
+	// breadth-first relabelling runs; with more than a dozen edges in total
+	if n >= 4 && rapid.IntRange(0, 3).Draw(t, "parheavy") == 0 {
+		i := rapid.IntRange(1, n-1).Draw(t, "pdupa")
+		j := rapid.IntRange(1, n-1).Draw(t, "pdupb")
+		c.Nodes[j] = c.Nodes[i]
+		for k, np := 0, rapid.IntRange(3, 7).Draw(t, "npar"); k < np; k++ {
+			from := rapid.IntRange(0, n-1).Draw(t, "pfrom")
+			to := rapid.IntRange(0, from).Draw(t, "pto") // back edge or self loop
+			req := rapid.SampledFrom(reqs).Draw(t, "preq")
+			t1 := rapid.SampledFrom(types).Draw(t, "pt1")
+			t2 := rapid.SampledFrom([]string{"dev", "opt", "scope:peer", ""}).Draw(t, "pt2")
+			c.Edges = append(c.Edges, gEdge{From: from, To: to, Req: req, Type: t1}, gEdge{From: from, To: to, Req: req, Type: t2})
+		}
+	}
 	// a quarter of the graphs: two nodes of one version, each with several node
 	// errors (the permuted copy records errors in reverse order)
 	if n >= 3 && rapid.IntRange(0, 3).Draw(t, "errheavy") == 0 {
